@@ -2,27 +2,27 @@
 SPECIFICATION Spec
 CONSTANTS
   Senders = {1}
-  MaxSend = 3
+  MaxSend = 1
   MaxTele = 0
   M = 4
   R = 2
   T = 4
-  H = 100
-  MaxNow = 6
-  MaxNet = 2
+  H = 3
+  MaxNow = 4
+  MaxNet = 1
   MaxRxq = 2
   MaxGwResend = 1
   DupBudget = 0
   LossBudget = 0
   InjBudget = 0
   AdvReq = FALSE
-  GwFaultBudget = 0
-  MaxEpoch = 1
-  EnableHB = FALSE
-  EnableClose = FALSE
+  GwFaultBudget = 1
+  MaxEpoch = 2
+  EnableHB = TRUE
+  EnableClose = TRUE
   EnableG2C = FALSE
   Adversary = FALSE
-  UseTCP = TRUE
+  UseTCP = FALSE
   ChanUnderLock = TRUE
   AckChanCheck = TRUE
   Urgent = FALSE
